@@ -26,7 +26,21 @@ EXPLANATION = (
     "Program::InvalidateSolver (directly, in the writer, or in a callee whose "
     "every path invalidates) with no solver query (Program::GetSolver) in "
     "between; R8.4 shows the solver object is created only by GetSolver, "
-    "dropped only by InvalidateSolver, and queried only through GetSolver. "
+    "dropped only by InvalidateSolver, and queried only through GetSolver; "
+    "InvalidateSolver must reach every exit after solver_.reset() / "
+    "reset(nullptr) / `= nullptr` (a reset to a new object does not count), "
+    "the only other exit accepted being a bare `return;` that is the whole "
+    "branch taken when solver_ tests null (`if (!solver_) return;`: nothing "
+    "to drop). R8.5: PathCacheTrie::InsertResult and GetResult walk the trie "
+    "with the same key sequence root_[start][finish] then one level per "
+    "blocked node keyed by node->id() (child looked up by find() or by "
+    "children[..]), no iteration can be left early, a missing child is "
+    "created on insert (insert/emplace, or operator[] followed by `if "
+    "(!child) child = make_unique`) and answered by a miss on lookup; the "
+    "walk may live in one private helper shared by both methods - a bool "
+    "parameter bound to a literal at the call (create_missing) is evaluated "
+    "and only the taken branches are examined, and a lookup that receives "
+    "nullptr from the helper must test it first and return a miss. "
     "Argument: a Solver and all its caches are created by GetSolver and are "
     "functions of the read set only; if every write to the read set is "
     "preceded by solver_.reset() with no query between, then at any query "
@@ -43,6 +57,9 @@ ASSUMPTIONS = [
     "constructors initialise fresh objects and are not mutators of existing "
     "solver-visible state; std:: container members outside the MUTATORS list "
     "do not modify the container",
+    "R8.5: unordered_map::operator[] value-initialises a missing entry (a "
+    "null unique_ptr), so `children[id]` followed by a null test is "
+    "find-or-insert; a GetResult that uses operator[] is refused",
 ]
 
 READ_SET = {
